@@ -17,6 +17,7 @@ PROP = "C10"
 VALUES = {
     "v1": {"n": 3, "tag": 5, "time": 3000},
     "v2": {"n": 9, "tag": 6, "time": 10, "metadata": ["x", {"y": 1}], "raw_metadata": b"\x01"},
+    "v1c": {"n": 3, "tag": 9, "time": 3001},   # other bytes, index record of exactly the same length as v1's
     "v1b": {"n": 3, "tag": 5, "time": 77, "metadata": {"same-bytes-as": "v1"}},   # same content as v1, other time/metadata
 }
 
@@ -40,6 +41,9 @@ class C10Spec(seqx.Spec):
                     out.append({"t": "W", "key": k, "val": v, "side": side, "how": "session"})
         for k in self.keys[:2]:
             out.append({"t": "W", "key": k, "val": "v1b", "side": self.sides[-1], "how": "session"})
+        out.append({"t": "W", "key": self.keys[0], "val": "v1c", "side": self.sides[0], "how": "session"})
+        out.append({"t": "RF", "key": self.keys[0], "side": self.sides[0]})
+        out.append({"t": "CL", "side": self.sides[-1]})
         for k in self.keys:
             for side in self.sides:
                 out.append({"t": "R", "key": k, "side": side})
